@@ -307,13 +307,20 @@ def c04i(ctx):
     from ..flow import affine
     fn = ctx.fn(G + ':MetaGrid._buffered_bbox')
     bp = fn.params[1]
-    sets = [st for st in fn.walk() if isinstance(st, ast.Assign) and isinstance(st.targets[0], ast.Subscript) and
-            unparse(st.targets[0].value) == 'buffers' and isinstance(const_value(st.targets[0].slice), int)]
+    sets = [st for st in fn.walk() if isinstance(st, (ast.Assign, ast.AugAssign)) and
+            isinstance((st.targets[0] if isinstance(st, ast.Assign) else st.target), ast.Subscript) and
+            unparse((st.targets[0] if isinstance(st, ast.Assign) else st.target).value) == 'buffers' and
+            isinstance(const_value((st.targets[0] if isinstance(st, ast.Assign) else st.target).slice), int)]
     seen = set()
     for st in sets:
-        k = const_value(st.targets[0].slice)
+        tg = st.targets[0] if isinstance(st, ast.Assign) else st.target
+        k = const_value(tg.slice)
         seen.add(k)
-        v = fn.canon.expr(st.value)
+        if isinstance(st, ast.AugAssign):       # buffers[k] -= E  is  buffers[k] = buffers[k] - E
+            v = ast.BinOp(left=ast.Subscript(value=ast.Name(id='buffers', ctx=ast.Load()), slice=ast.Constant(value=k), ctx=ast.Load()),
+                          op=st.op, right=fn.canon.expr(st.value))
+        else:
+            v = fn.canon.expr(st.value)
         ok = isinstance(v, ast.BinOp) and isinstance(v.op, ast.Sub) and unparse(v.left).replace(' ', '') == 'buffers[%d]' % k
         detail = unparse(v)[:90]
         if ok:
@@ -330,7 +337,7 @@ def c04i(ctx):
                 detail = 'cut-off distance %s' % unparse(r.left)[:90]
         # the branch is the one that clips this edge
         iff = enclosing(st, ast.If)
-        ok = ok and iff is not None and contains(iff.test, lambda x: isinstance(x, ast.Subscript) and unparse(x.value) == 'self.grid.bbox' and const_value(x.slice) == k)
+        ok = ok and iff is not None and contains(cexpr(iff.test), lambda x: isinstance(x, ast.Subscript) and unparse(x.value) == 'self.grid.bbox' and const_value(x.slice) == k)
         ctx.check(ok, 'MetaGrid._buffered_bbox:buffer%d-shrinks-by-cut' % k,
                   'buffers[%d] -= (distance between the grid edge %d and the buffered edge) / resolution, in the branch that clips that edge' % (k, k), fn, st,
                   fail='the buffer of edge %d is not reduced by the distance that was cut off at the grid border (%s): the tiles of a meta tile '
